@@ -1,8 +1,10 @@
 (* C14 — a failed cuckoo insert is signalled and, if non-destructive, changes nothing.
    Statements only. *)
 From GX.Model Require Import Base Murmur Cuckoo.
-From GX.Proofs Require Import ListLemmas CuckooProofs CuckooInv.
-From Coq Require Import Permutation.
+From GX.Model Require Import Redis RedisCMS RedisCuckoo.
+From GX.Proofs Require Import ListLemmas CuckooProofs CuckooInv RedisCuckooInv.
+From Coq Require Import ZArith Permutation.
+Open Scope N_scope.
 
 (* exhausting the retries is always signalled (the model's InsFull is the documented panic),
    never reported as success *)
@@ -58,8 +60,44 @@ Example C14_failure_reachable :
   (exists g, ck_insert murmur64 f2 [99] true true [0; 0; 0] = InsFull g).
 Proof. vm_compute. split; [reflexivity|]. split; eexists; reflexivity. Qed.
 
+(* Redis-backed variant: an insert either returns (one more stored entry, Length + 1), or signals
+   "full" with the counters, the number of stored entries and Length unchanged (destructive or
+   not); it never ends in a runtime panic, for elements with a non-empty fingerprint *)
+Theorem C14_redis_insert_outcomes : forall key meta size bsize,
+  (forall i, meta <> bucket_key key i) -> (forall i, meta <> len_key (bucket_key key i)) ->
+  1 <= bsize -> bsize < 2 ^ 62 ->
+  forall fpl retries h64 s c x destr coin draws fp i1 i2,
+  buckets_ok key size bsize s -> mlen meta s = Some c ->
+  rck_positions h64 (hdl key meta size bsize fpl retries) x = Ok (fp, i1, i2) -> fp <> [] -> i1 < size -> i2 < size ->
+  Forall (fun k => k < 2 ^ 53) draws ->
+  match rck_insert h64 s (hdl key meta size bsize fpl retries) x destr coin draws with
+  | RInsOk s' => buckets_ok key size bsize s' /\ tot key size s' = S (tot key size s) /\ mlen meta s' = Some (c + 1)%Z
+  | RInsFull s' => buckets_ok key size bsize s' /\ tot key size s' = tot key size s /\ mlen meta s' = Some c
+  | RInsPanic _ _ => False
+  end.
+Proof. exact rinsert_ok. Qed.
+
+(* Redis-backed variant, non-destructive option: a "filter is full" failure leaves every bucket
+   list, every bucket counter, the number of stored entries and the Length field exactly as they
+   were - for every bucket count (power of two or not) and every state satisfying the counters
+   invariant *)
+Theorem C14_redis_nondestructive_changes_nothing : forall key meta size bsize,
+  (forall i, meta <> bucket_key key i) -> (forall i, meta <> len_key (bucket_key key i)) ->
+  1 <= bsize -> bsize < 2 ^ 62 ->
+  forall fpl retries h64, 0 < size ->
+  forall s c x coin draws fp i1 i2 s',
+  buckets_ok key size bsize s -> mlen meta s = Some c ->
+  rck_positions h64 (hdl key meta size bsize fpl retries) x = Ok (fp, i1, i2) -> fp <> [] -> i1 < size -> i2 < size ->
+  Forall (fun k => k < 2 ^ 53) draws ->
+  rck_insert h64 s (hdl key meta size bsize fpl retries) x false coin draws = RInsFull s' ->
+  (forall j, blist key s' j = blist key s j) /\ buckets_ok key size bsize s' /\
+  tot key size s' = tot key size s /\ mlen meta s' = Some c.
+Proof. exact rinsert_full_nondestructive. Qed.
+
 Print Assumptions C14_exhausted_is_signalled.
 Print Assumptions C14_failed_insert_keeps_length.
 Print Assumptions C14_nondestructive_changes_nothing.
 Print Assumptions C14_destructive_displaces_at_most_one.
 Print Assumptions C14_failed_insert_keeps_invariant.
+Print Assumptions C14_redis_insert_outcomes.
+Print Assumptions C14_redis_nondestructive_changes_nothing.
